@@ -43,8 +43,9 @@ Proof. exact incr_spec. Qed.
 Print Assumptions C15_incr_walks_in_address_order.
 
 (* After any history, each array element holds exactly the total weight of the eligible
-   samples whose bin vector is in range and has that address (scalar variables: eligible =
-   can_accumulate_data; gathered vector variables: the implementation accumulates at every step). *)
+   samples whose bin vector is in range and has that address (eligible = can_accumulate_data, for scalar
+   variables (vm = false: one sample of weight 1 per step) and for gathered vector variables (vm = true: one
+   sample per component, with its configured weight) alike). *)
 Theorem C15_hist_element_is_sample_sum : forall (c : hist_cfg) (vm : bool) (h : list hist_in) (a : nat),
   all_pos (h_nx c) ->
   nth a (hist_run Rops vm c h) 0%R = lsum (map (weight_at c a) (eligible_samples c vm h)).
